@@ -542,10 +542,10 @@ class Interp:
         elif isinstance(st, ast.Assign):
             val = self.ev(st.value)
             for t in st.targets:
-                self.bind(t, val)
+                self.bind(t, self._fresh_container(t, st.value, val))
         elif isinstance(st, ast.AnnAssign):
             if st.value is not None:
-                self.bind(st.target, self.ev(st.value))
+                self.bind(st.target, self._fresh_container(st.target, st.value, self.ev(st.value)))
         elif isinstance(st, ast.AugAssign):
             val = self.ev(st.value)
             cur = self.ev(st.target) if isinstance(st.target, ast.Name) else Sym(self.text(st.target))
@@ -608,6 +608,19 @@ class Interp:
             raise AnalysisError(
                 f"tabulator: unsupported statement {type(st).__name__} at line {st.lineno}"
             )
+
+    @staticmethod
+    def _fresh_container(target: ast.AST, value: ast.AST, val: Value) -> Value:
+        """A local initialised to an EMPTY container literal is a mutable accumulator:
+        keep it addressable by its own name instead of substituting `[]` / `{}`."""
+        if isinstance(target, ast.Name):
+            empty_lit = isinstance(value, (ast.List, ast.Dict)) and not getattr(value, "elts", None) \
+                and not getattr(value, "keys", None)
+            empty_call = isinstance(value, ast.Call) and isinstance(value.func, ast.Name) \
+                and value.func.id in ("set", "list", "dict") and not value.args and not value.keywords
+            if empty_lit or empty_call:
+                return Sym(target.id)
+        return val
 
     def _aug(self, st: ast.AugAssign, cur: Value, val: Value) -> Any:
         fn = getattr(self.hooks, "augassign", None)
